@@ -129,3 +129,12 @@ package language
 //@ func (*Parser).ParseConditionalExpression
 //@   partial
 //@   ensures[C09] len(p.errors) == 0 ==> parsed <= 1
+
+// ---- C10 / C14: internal item -> evaluator object, binary payloads ---------------------------------
+// The evaluator works on its own copy of a binary value: what an update expression stores can never be the caller's
+// byte slice (the copy made here is the only isolation on the UpdateItem path - the client mappers pass B through).
+//@ func mapComplexAttributeToObject
+//@   partial
+//@   requires val != nil
+//@   ensures[C14] len(val.B) != 0 ==> result1 == nil && typeis(result0, "*Binary") && fresh(result0.(*Binary)) && fresh(arr(result0.(*Binary).Value)) && len(result0.(*Binary).Value) == len(val.B)
+//@   ensures[C10] len(val.B) != 0 ==> forall j int :: {result0.(*Binary).Value[j]} 0 <= j && j < len(val.B) ==> result0.(*Binary).Value[j] == val.B[j]
